@@ -62,74 +62,69 @@ theorem StepOK.chain {st st1 st' : State} (h : StepOK st1 st') (hr : st1.results
 
 /-! ### slice-level EncodeInto -/
 
+/-- the text EncodeInto appends -/
+def finishText (o : Opts) (toks : List Tok) : Bytes :=
+  if hasBad toks = false ∧ o.escapeHTML = true then htmlEscape (renderToks toks) else renderToks toks
+
+theorem truncate_ext {b b1 : SBuf} {x : Bytes} (h : Ext b b1 x) (hwf : b.WF) :
+    Ext b { b1 with len := b.len } [] := by
+  have hl := h.len
+  have hw := h.wf
+  unfold SBuf.WF at hw hwf
+  refine ⟨by simp only [SBuf.WF]; omega, ?_, by simp, h.gen_le, h.same⟩
+  have hb := h.bytes
+  simp only [SBuf.bytes] at hb ⊢
+  have : (b1.mem.take b1.len).take b.len = (b.mem.take b.len ++ x).take b.len := by rw [hb]
+  rw [List.take_take, List.take_left' (by simp [List.length_take]; omega)] at this
+  have hmin : min b.len b1.len = b.len := by omega
+  rw [hmin] at this
+  simp only [List.append_nil]; exact this
+
 theorem encodeInto_ok {env : Env} (henv : env.OK) {n : Natives} (hn : n.OK) (impl : StrImpl) (o : Opts)
     (b : SBuf) (hwf : b.WF) (v : Val) :
-    ∃ sb, encodeInto env n impl o b v = .ok (sb, hasBad (compile v)) ∧ sb.WF ∧ b.gen ≤ sb.gen ∧
-      (hasBad (compile v) = false →
-        sb.bytes = if o.escapeHTML then htmlEscape (b.bytes ++ renderToks (compile v))
-                   else b.bytes ++ renderToks (compile v)) ∧
-      ((hasBad (compile v) = true ∨ o.escapeHTML = false) → Ext b sb (renderToks (compile v))) ∧
-      (hasBad (compile v) = false → o.escapeHTML = true → sb.gen ≠ b.gen) := by
+    ∃ sb, encodeInto env n impl o b v = .ok (sb, hasBad (compile v)) ∧ Ext b sb (finishText o (compile v)) := by
   obtain ⟨b1, e1, x1⟩ := encodeToks_ok henv (strEnc_ok henv hn impl) (compile v) b hwf
   by_cases hb : hasBad (compile v) = true
   · rw [hb] at e1
     have e : encodeInto env n impl o b v = .ok (b1, true) := by
       unfold encodeInto; rw [e1]
     rw [hb]
-    exact ⟨b1, e, x1.wf, x1.gen_le, (fun h => by cases h), (fun _ => x1), (fun h => by cases h)⟩
+    refine ⟨b1, e, ?_⟩
+    simp only [finishText, hb, Bool.true_eq_false, false_and, if_false]; exact x1
   · have hb : hasBad (compile v) = false := by simpa using hb
     rw [hb] at e1
     rw [hb]
     by_cases ho : o.escapeHTML = true
-    · have hwf0 : SBuf.WF { mem := [], len := 0, gen := b1.gen + 1 } := by simp [SBuf.WF]
-      obtain ⟨b2, e2, x2⟩ := htmlEscapeLoop_ok henv hn.html { mem := [], len := 0, gen := b1.gen + 1 } hwf0 b1.bytes
+    · have hwf0 : SBuf.WF { mem := [], len := 0, gen := 0 } := by simp [SBuf.WF]
+      obtain ⟨t, e2, x2⟩ := htmlEscapeLoop_ok henv hn.html { mem := [], len := 0, gen := 0 } hwf0 (b1.bytes.drop b.len)
+      have htr := truncate_ext x1 hwf
+      obtain ⟨b2, e3, x3⟩ := SBuf.emit_ok henv htr.wf t.bytes
       have e : encodeInto env n impl o b v = .ok (b2, false) := by
-        unfold encodeInto; rw [e1]; simp only [ho, if_true, e2]
-      have hg1 := x1.gen_le
-      have hg2 := x2.gen_le
-      simp only at hg2
-      refine ⟨b2, e, x2.wf, by omega, (fun _ => ?_), (fun h => ?_), (fun _ _ => by omega)⟩
-      · have h2 := x2.bytes
-        simp only [SBuf.bytes, List.take_zero, List.nil_append] at h2
-        have h1 := x1.bytes
-        simp only [SBuf.bytes] at h1
-        simp only [SBuf.bytes, ho, if_true]
-        rw [h2, h1]
-      · rcases h with h | h
-        · cases h
-        · rw [ho] at h; cases h
+        unfold encodeInto; rw [e1]; simp only [ho, if_true, e2, e3]
+      refine ⟨b2, e, ?_⟩
+      have htail : b1.bytes.drop b.len = renderToks (compile v) := by
+        rw [x1.bytes, List.drop_left' (SBuf.bytes_length hwf)]
+      have ht : t.bytes = htmlEscape (renderToks (compile v)) := by
+        have := x2.bytes
+        rw [htail] at this
+        simpa [SBuf.bytes] using this
+      simp only [finishText, hb, ho, and_self, if_true]
+      have := htr.trans x3
+      rw [ht] at this
+      simpa using this
     · have ho : o.escapeHTML = false := by simpa using ho
       have e : encodeInto env n impl o b v = .ok (b1, false) := by
         unfold encodeInto; rw [e1]; simp only [ho, Bool.false_eq_true, if_false]
-      refine ⟨b1, e, x1.wf, x1.gen_le, (fun _ => ?_), (fun _ => x1), (fun _ h => by rw [ho] at h; cases h)⟩
-      simp only [ho, Bool.false_eq_true, if_false]; exact x1.bytes
+      refine ⟨b1, e, ?_⟩
+      simp only [finishText, hb, ho, Bool.false_eq_true, and_false, if_false]; exact x1
 
-/-- on an empty slice the result of EncodeInto is an extension whatever the options -/
+/-- (kept under its old name for EncodeIndented, which starts from an empty slice) -/
 theorem encodeInto_empty {env : Env} (henv : env.OK) {n : Natives} (hn : n.OK) (impl : StrImpl) (o : Opts)
     (b : SBuf) (hl : b.len = 0) (v : Val) :
     ∃ sb, encodeInto env n impl o b v = .ok (sb, hasBad (compile v)) ∧
       Ext b sb (if hasBad (compile v) = false ∧ o.escapeHTML = true
-                then htmlEscape (renderToks (compile v)) else renderToks (compile v)) := by
-  have hwf : b.WF := by simp [SBuf.WF, hl]
-  obtain ⟨sb, e, hwf', hg, hbytes, hext, hgen⟩ := encodeInto_ok henv hn impl o b hwf v
-  refine ⟨sb, e, ?_⟩
-  have hb0 : b.bytes = [] := by simp [SBuf.bytes, hl]
-  by_cases hc : hasBad (compile v) = false ∧ o.escapeHTML = true
-  · simp only [hc, and_self, if_true]
-    have hby := hbytes hc.1
-    simp only [hc.2, if_true, hb0, List.nil_append] at hby
-    have hlen : sb.len = (htmlEscape (renderToks (compile v))).length := by
-      have := SBuf.bytes_length hwf'
-      rw [hby] at this; exact this.symm
-    refine ⟨hwf', by rw [hby, hb0]; rfl, by rw [hlen, hl]; simp, hg, fun h => absurd h (hgen hc.1 hc.2)⟩
-  · simp only [hc, if_false]
-    apply hext
-    cases h1 : hasBad (compile v)
-    · right
-      cases h2 : o.escapeHTML
-      · rfl
-      · exact absurd ⟨h1, h2⟩ hc
-    · left; rfl
+                then htmlEscape (renderToks (compile v)) else renderToks (compile v)) :=
+  encodeInto_ok henv hn impl o b (by simp [SBuf.WF, hl]) v
 
 /-! ### Encode -/
 
